@@ -515,7 +515,13 @@ func (g *gen) intExpr(depth int) string {
 		if depth > 0 {
 			op := rapid.SampledFrom([]string{"+", "-", "*"}).Draw(g.t, "arith")
 			g.feat("arithmetic")
-			return "(" + g.intExpr(depth-1) + " " + op + " " + g.intExpr(depth-1) + ")"
+			l, r := g.intExpr(depth-1), g.intExpr(depth-1)
+			if op == "+" && isPropertyLookupText(l) && isPropertyLookupText(r) {
+				// DAWGS reads `a.x + b.y` on two untyped properties as string concatenation on purpose
+				// (translate/expression.go isConcatenationOperation): outside the typed common fragment
+				r = g.intLit()
+			}
+			return "(" + l + " " + op + " " + r + ")"
 		}
 		return g.intLit()
 	case 2, 3, 4:
@@ -535,6 +541,23 @@ func (g *gen) intExpr(depth int) string {
 		g.feat("fn-size-list")
 		return "size(" + e.Name + ".tags)"
 	}
+}
+
+// isPropertyLookupText reports whether the rendered expression is a bare property lookup (v.key).
+func isPropertyLookupText(e string) bool {
+	dot := strings.IndexByte(e, '.')
+	if dot <= 0 || dot == len(e)-1 {
+		return false
+	}
+	for i, c := range e {
+		if i == dot {
+			continue
+		}
+		if !(c >= 'a' && c <= 'z' || c >= '0' && c <= '9' || c == '_') {
+			return false
+		}
+	}
+	return true
 }
 
 func (g *gen) listStrExpr() string {
@@ -859,6 +882,13 @@ func (g *gen) projection(keyword string, final bool) string {
 			}
 			seenAlias[name] = true
 			newScope = append(newScope, Var{name, it.typ})
+		} else {
+			// an unaliased expression is named by its text; openCypher rejects two columns with one name
+			if seenAlias["\x00"+it.expr] {
+				it.alias = g.fresh("a")
+				newScope = append(newScope, Var{it.alias, it.typ})
+			}
+			seenAlias["\x00"+it.expr] = true
 		}
 	}
 	for i, it := range items {
